@@ -160,7 +160,7 @@ Theorem select_sound api pat tree st sel i :
                nth_error tree (Z.to_nat i) = Some x /\ lib rp x = true.
 Proof.
   unfold select.
-  destruct (((api =? 0) || (api =? 1)) && (max_request_path_length <? Z.of_nat (length pat)));
+  destruct (((api =? 0) || (api =? 1) || (api =? 5)) && (max_request_path_length <? Z.of_nat (length pat)));
     [intros H; inversion H; subst; contradiction|].
   destruct (negb (matcher_accepts pat)); [intros H; inversion H; subst; contradiction|].
   destruct (to_glob pat) as [ps|] eqn:G; [|intros H; inversion H; subst; contradiction].
@@ -184,7 +184,7 @@ Theorem invalid_rejected api pat tree :
   matcher_accepts pat = false -> api <> 4 -> select api pat tree = (400, []).
 Proof.
   intros H _. unfold select. rewrite H. simpl.
-  destruct (((api =? 0) || (api =? 1)) && (max_request_path_length <? Z.of_nat (length pat))); reflexivity.
+  destruct (((api =? 0) || (api =? 1) || (api =? 5)) && (max_request_path_length <? Z.of_nat (length pat))); reflexivity.
 Qed.
 
 (* ---------- completeness for the strict reading ---------- *)
@@ -314,7 +314,7 @@ Proof.
         * apply in_with_fallback_direct. apply (in_select_glob _ _ _ x Hi Hn). exact Hs. }
   destruct K as (ps & Hg & Hin').
   unfold select. rewrite Hacc, Hg, A3. simpl negb.
-  assert (L : ((api =? 0) || (api =? 1)) && (max_request_path_length <? Z.of_nat (length pat)) = false).
+  assert (L : ((api =? 0) || (api =? 1) || (api =? 5)) && (max_request_path_length <? Z.of_nat (length pat)) = false).
   { apply andb_false_iff. right. apply Z.ltb_ge. exact Hlen. }
   rewrite L. cbv iota. destruct (with_fallback ps tree) as [|j l]; [contradiction|]. simpl. auto.
 Qed.
